@@ -99,6 +99,12 @@ CLAIMS["C19"]["technique"] = "finite table laws discharged by z3 over the string
 CLAIMS["C20"]["text"] = "Deductive (static, over the real ASTs, with assumed effect contracts of the vermouth writer): in gen_params and gen_coords the only effect on the output path is the DeferredFileWriter flush and every processing stage call precedes it; in gen_seq the open(..,'w') follows graph generation. " + CLAIMS["C20"]["text"]
 CLAIMS["C20"]["technique"] = "static effect-ordering obligations over the real AST; " + B_TECH
 
+CLAIMS["C03"]["text"] = "Deductive: _compute_box_size returns the edge with edge^3 * density = 1.6605410 * total mass, the total defined by recursion over the expanded molecule list and the atoms of each molecule with 'the [ atoms ] mass if the column is present (0 included), else the atom-type mass' (two nested loop invariants; the KeyError path is proved unreachable when every atom has one of the two). " + CLAIMS["C03"]["text"].replace("Bounded only so far: ", "Bounded: ")
+CLAIMS["C03"]["technique"] = P_TECH + "; " + B_TECH
+CLAIMS["C03"]["note"] = TRUST + "cube root axiomatised (r^3 = x); box precedence, atom list/order and finiteness are decided by the bounded unit only."
+CLAIMS["C14"]["text"] = "Deductive: tag_exclusions writes nothing for a uniform exclusion distance and otherwise tags every involved block with its ORIGINAL distance and sets nrexcl to the minimum, all other blocks untouched (two loop invariants over the node->block table; blocks shared by several residues handled through alias semantics). " + CLAIMS["C14"]["text"].replace("Bounded only so far: ", "Bounded: ")
+CLAIMS["C14"]["technique"] = P_TECH + "; " + B_TECH
+CLAIMS["C14"]["note"] = TRUST + "networkx.set_node_attributes modelled for a uniform value; expand_excl / neighborhood (graph distances) are decided by the bounded unit only. Known finding K16."
 NOT_CLAIMED = {}
 NOTES = ("See DESIGN.md. Properties listed under not_applicable with the reason 'check not finished' are unclaimed work in progress, "
          "not judged inapplicable. level 'other' everywhere: each check combines deductive units (counted in coverage.obligations/discharged) "
